@@ -87,7 +87,7 @@ def r1_logger(ctx):
                 svals = [Sym("phantom")] * nf
                 svals[reg_i] = Sym("reg:0")
                 state_home = 11001
-                inl = lambda k_: INL(k_) or k_.startswith("mahf::state::State::holding") or k_.startswith("<mahf::state::State as core::ops::deref") or statemodel.inline(k_)
+                inl = lambda k_: INL(k_) or (k_.startswith("mahf::state::State::holding") or _private_state_fn(F, k_)) or k_.startswith("<mahf::state::State as core::ops::deref") or statemodel.inline(k_)
                 it = install(Interp(fn.body, chain(mk_oracle(table), store, coll_oracle, std_oracle), [Sym("self"), Sym("problem"), Ref(state_home, [], frame="root")], facts=F, inline=inl, max_visits=12, max_paths=100))
                 log_idx = F.field_index(LOG + "log::Log", "steps")
                 it.extra_env = {state_home: Agg("adt", "mahf::state::State", "State", svals)}
@@ -147,6 +147,14 @@ def r1_logger(ctx):
                 good = False
                 why = "source state %s: the entry is %s, expected %s" % ("present" if present else "missing", outs, want)
     ctx.check(good, "C15.R2", "EntryExtractor::extract_entry", "value-or-null-under-lens-name", "extract_entry does not store Some(lens value) / None under T::entry_name(): %s" % why, loc=ee[0].loc() if ee else None)
+
+
+def _private_state_fn(F, k):
+    """private helpers of `State` (e.g. an `exchange` extracted from `holding`) are followed like `holding` itself"""
+    if not (k.startswith("mahf::state::") and not k.startswith("mahf::state::registry::") and not k.startswith("mahf::state::common::")):
+        return False
+    fn = F.fn_opt(k)
+    return fn is not None and getattr(fn, "vis", None) not in ("pub", "public")
 
 
 def load_val(v):
@@ -666,7 +674,7 @@ def r10_config_stays(ctx):
             vals = [Sym("phantom")] * nf
             vals[reg_i] = Sym("reg:0")
             home = 11001
-            inl = lambda k: INL(k) or k.startswith("mahf::state::State::holding") or k.startswith("<mahf::state::State as core::ops::deref") or statemodel.inline(k)
+            inl = lambda k: INL(k) or (k.startswith("mahf::state::State::holding") or _private_state_fn(F, k)) or k.startswith("<mahf::state::State as core::ops::deref") or statemodel.inline(k)
             it = install(Interp(fn.body, chain(oracle, store, coll_oracle, std_oracle), [Sym("self"), Sym("problem"), Ref(home, [], frame="root")], facts=F, inline=inl, max_visits=12, max_paths=100))
             it.extra_env = {home: Agg("adt", "mahf::state::State", "State", vals)}
             it.init_state = {"heap": {"steps": (), "rules": (Agg("adt", RULE, "ExtractionRule", rv),)}, "next_vec": 0}
